@@ -40,7 +40,15 @@ def gen_case(case):
     srcs = []
     mode = r.random()
     meta = {}
-    if mode < 0.6:
+    if mode < 0.2:
+        meta["mode"] = "grid-recurrence"
+        svgs, gcfg, m = svggen.grid_recurrence_set(r, r.randint(2, 3), pal=pal)
+        keep_clip = cfg["clip_to_viewbox"]
+        cfg.update(gcfg)
+        cfg["clip_to_viewbox"] = keep_clip
+        cfg.pop("transform", None)
+        srcs.extend(svgs)
+    elif mode < 0.65:
         meta["mode"] = "recurrence"
         svgs, m = svggen.recurrence_set(r, r.randint(2, 4), pal, same_vb=r.random() < 0.6, tkinds=["rotate", "rot90", "mirror", "uscale", "nuscale", "general", "bigscale", "translate"])
         srcs.extend(svgs)
@@ -64,7 +72,7 @@ def run_case(case):
     from vf.checks import render_common as rc
     from vf.drive import inproc
     from vf.hooks import contracts
-    from vf.oracle import colreval, geom
+    from vf.oracle import colreval, compare, geom
 
     sources, cfg, meta = gen_case(case)
     res = {"counters": {}, "maxes": {}, "violations": [], "tags": [meta["mode"], "q=%s" % ("default" if cfg["clipbox_quantization"] is None else ("1" if cfg["clipbox_quantization"] == 1 else "n"))]}
@@ -88,6 +96,13 @@ def run_case(case):
         return res
     font = built.font
     c = res["counters"]
+    if "COLR" not in font:
+        # legal only if no source paints anything
+        painted = [i for i in range(len(built.inputs)) if [l for l in rc.ref_layers_for(built, i, 1000)[0] if l.contours]]
+        if painted:
+            res["violations"].append({"what": "sources paint but the font has no COLR table", "inputs": painted, "config": cfg})
+        c["fonts_without_colr"] = 1
+        return res
     ev = colreval.Evaluator(font)
     tol = rc.tol_for(built.cfg)
     step = built.cfg.clipbox_quantization or round(0.02 * built.cfg.upem)
@@ -103,7 +118,8 @@ def run_case(case):
         name = reached[0]
         adv = font["hmtx"][name][0]
         ref, vb = rc.ref_layers_for(built, i, adv)
-        ref = [l for l in ref if l.contours]
+        ref_all = ref
+        ref = [l for l in ref if not compare.negligible(l)]
         box = ev.clip_box(name)
         c["glyphs"] = c.get("glyphs", 0) + 1
         if not ref:
@@ -115,7 +131,8 @@ def run_case(case):
             res["violations"].append({"what": "painted glyph has no clip box", "glyph": name, "config": cfg})
             continue
         try:
-            got = [l for l in ev.display_list(name) if l.contours]
+            got_all = ev.display_list(name)
+            got = [l for l in got_all if l.contours]
         except colreval.Unsupported as e:
             res["violations"].append({"what": f"paint graph outside evaluated set: {e}", "glyph": name})
             continue
@@ -125,8 +142,11 @@ def run_case(case):
         if step > 1 and any(round(v) % step for v in box):
             res["violations"].append({"what": "clip box edge is not a multiple of the quantisation step", "glyph": name, "box": box, "step": step, "config": cfg})
         # (a) source shapes
-        if len(ref) == len(got):
-            for li, (rl, gl) in enumerate(zip(ref, got)):
+        pairs = compare.pair_layers(ref_all, got_all)
+        if pairs is not None:
+            for li, (rl, gl) in enumerate(pairs):
+                if not rl.contours or not gl.contours:
+                    continue
                 bb = geom.bbox(rl.contours)
                 e = tol.eps(gl, rl)
                 out = max(box[0] - bb[0], box[1] - bb[1], bb[2] - box[2], bb[3] - box[3])
